@@ -20,6 +20,8 @@ props.prop(
             'index roles of every reader of the dependence table',
     not_decided='rounding, out-of-range handling, wildcard (AnyScalar) semantics, the link translation itself',
     assumptions=['cache_id is None => no cache access (checked: every cache store is under that test)'])
+props.also('C16',
+           'hit condition, stored key and eviction read through local aliases of the cache record; accumulation of the invalid mask on every path (CFG); shared view rule of the pixel-aligned reader (C15.d)')
 
 FRB = 'glue.core.fixed_resolution_buffer.compute_fixed_resolution_buffer'
 
